@@ -449,7 +449,7 @@ class Check(PropertyCheck):
         "C12_tree_sig_injective", "C12_struct_sig", "C12_content_edit_keeps_struct_sig",
         "C12_add_remove_retype_changes_struct_sig", "C12_change_at_any_depth", "C12_filter_exact", "C12_F32_before_repair",
         # Props/C12Engine.lean: the directory tasks as an engine Program; rerun-iff over accepted engine traces
-        "C12_client_WF", "C12_client_LocalIds", "C12_client_not_Det",
+        "C12_client_WF", "C12_client_LocalIds", "C12_client_Det", "C12_build_returns_unique",
         "C12_clean_signature_iff", "C12_clean_contents_iff",
         "C12_built_value", "C12_build_returns_current",
         "C12_tree_changed_not_up_to_date", "C12_struct_changed_not_up_to_date",
